@@ -67,7 +67,14 @@ def run(tier):
             for opts, env in variants:
                 cases.append({"id": len(cases), "model": nl_model(objs), "opts": opts, "env": env,
                               "answer": "status 0 ok\nprimal 1 1 1\nobjvals 1\n",
-                              "abs": dict(a, objs=objs, grp=grp)})
+                              "abs": dict(a, objs=objs, grp=grp, names=[])})
+            if rep == 0:        # the same selection with names: read from .col/.row (cvt:names=2) or generic (cvt:names=3)
+                for nmode, onames in ((2, ["Cost%d" % (k + 1) for k in range(a["N"])]), (3, ["_sobj[%d]" % (k + 1) for k in range(a["N"])])):
+                    grp += 1
+                    cases.append({"id": len(cases), "model": nl_model(objs), "opts": variants[0][0] + ["cvt:names=%d" % nmode], "env": variants[0][1],
+                                  "files": {".col": "x\ny\nz\n", ".row": "".join(n_ + "\n" for n_ in ["Row1"] + ["Cost%d" % (k + 1) for k in range(a["N"])])},
+                                  "answer": "status 0 ok\nprimal 1 1 1\nobjvals 1\n",
+                                  "abs": dict(a, objs=objs, grp=grp, names=onames)})
     exe = targets.get("h_drv")
     results = drv.run_cases(exe, PID, cases)
     trace = os.path.join(outdir(PID), "trace-%s.ndjson" % tier)
@@ -86,7 +93,7 @@ def run(tier):
                         ub[mapv(i)] = as_int(ev["ub"][i]) if not isinstance(ev["ub"][i], str) else 2000000000
                     f.write(json.dumps({"e": "Vars", "lb": lb, "ub": ub}) + "\n")
                 elif ev["e"] == "Obj":
-                    f.write(json.dumps({"e": "Obj", "i": ev["i"], "max": ev["max"],
+                    f.write(json.dumps({"e": "Obj", "i": ev["i"], "max": ev["max"], "name": ev.get("name") or "",
                                         "lin": [[as_int(cf), mapv(v)] for cf, v in ev["lin"]],
                                         "quad": [[as_int(cf), mapv(v1), mapv(v2)] for cf, v1, v2 in ev["quad"]]}) + "\n")
                 elif ev["e"] in ("Crash", "BadRecLine"):
@@ -116,7 +123,7 @@ def run(tier):
         "traces_validated_against_impl": len(cases),
         "samples": [cases[5]["abs"], cases[-1]["abs"], open(trace).read().splitlines()[1:6]],
         "evaluations": len(cases), "abstract_cases": len(abstract), "exhaustive": True,
-        "explanation": "TLC enumerates all (N in 0..3, objno in unset/0..4, multiobj in unset/0/1); each is concretised to NL files with distinct integer objectives (sense, linear, constant, bilinear parts); the real driver's delivered objectives are compared semantically (all grid points) with the selected originals by TLC",
+        "explanation": "TLC enumerates all (N in 0..3, objno in unset/0..4, multiobj in unset/0/1), each also with names given (.col/.row read with cvt:names=2, generic with cvt:names=3: the delivered objective carries the name of the objective it is); each is concretised to NL files with distinct integer objectives (sense, linear, constant, bilinear parts); the real driver's delivered objectives are compared semantically (all grid points) with the selected originals by TLC",
         "rejected": len(bad), "violations_new": nnew,
     }, time.time() - t0, violations=nnew,
         assumptions=["objective constants are delivered as fixed auxiliary variables (checked: AuxFixed)", "text NL input only in this check"])
